@@ -724,3 +724,131 @@ theorem matmul_flat_none (a b : Tensor S) (ta tb : Bool) (la lb : List Nat) (a1 
   rw [← hda, ← hdb]
 
 end Corgi
+
+namespace Corgi
+variable {S : Type} [Add S] [Mul S] [Neg S] [Sub S] [ScalarOps S]
+
+/-- `sliced_op` with two trailing operation dimensions never looks at the last two input dimensions -/
+theorem slicedOp_last2 (arrays : List (Tensor S)) (op : List (List S) → R (List S)) (L : List Nat) (x1 x2 y1 y2 : Nat)
+    (out : List Nat) (flat : Nat) :
+    slicedOp arrays op (L ++ [x1, x2]) out 2 flat = slicedOp arrays op (L ++ [y1, y2]) out 2 flat := by
+  have hl1 : (L ++ [x1, x2]).length = L.length + 2 := by simp
+  have hl2 : (L ++ [y1, y2]).length = L.length + 2 := by simp
+  have ht1 : (L ++ [x1, x2]).take (L.length + 2 - 2) = L := by simp
+  have ht2 : (L ++ [y1, y2]).take (L.length + 2 - 2) = L := by simp
+  have e1 : (L ++ [x1, x2]).reverse.drop 2 = L.reverse := by simp
+  have e1' : (L ++ [y1, y2]).reverse.drop 2 = L.reverse := by simp
+  have e4 : slicedBody arrays op (L ++ [x1, x2]) out 2 = slicedBody arrays op (L ++ [y1, y2]) out 2 := by
+    funext n
+    unfold slicedBody
+    simp only [hl1, hl2, ht1, ht2]
+  unfold slicedOp
+  simp only [hl1, hl2, ht1, ht2, e1, e1', e4]
+
+/-- a rank-1 left operand is sliced exactly like the one-row matrix with the same values -/
+theorem slicedOp_row (av : List S) (k : Nat) (rest : List (Tensor S)) (op : List (List S) → R (List S))
+    (inDims out : List Nat) (flat : Nat) :
+    slicedOp ((⟨[k], av⟩ : Tensor S) :: rest) op inDims out 2 flat
+      = slicedOp ((⟨[1, k], av⟩ : Tensor S) :: rest) op inDims out 2 flat := by
+  have hs : ∀ lc idx, slicesAt ((⟨[k], av⟩ : Tensor S) :: rest) 2 lc idx = slicesAt ((⟨[1, k], av⟩ : Tensor S) :: rest) 2 lc idx := by
+    intro lc idx
+    simp [slicesAt, mapR, prod, projOffset]
+  have e4 : slicedBody ((⟨[k], av⟩ : Tensor S) :: rest) op inDims out 2 = slicedBody ((⟨[1, k], av⟩ : Tensor S) :: rest) op inDims out 2 := by
+    funext n
+    unfold slicedBody
+    simp only [hs]
+  have hv : ∀ X : List Nat, ((([k] : List Nat).reverse.drop 2).zip X).all (fun p => p.1 == 1 || p.1 == p.2)
+      = ((([1, k] : List Nat).reverse.drop 2).zip X).all (fun p => p.1 == 1 || p.1 == p.2) := by
+    intro X; simp
+  unfold slicedOp
+  simp only [List.all_cons, hs, e4, hv]
+
+theorem compat_nil_left (B : List Nat) : Compat [] B = true := by
+  unfold Compat; simp [compatRev]
+
+theorem bdimsRev_nil_left (l : List Nat) : bdimsRev [] l = l := by
+  cases l <;> rfl
+
+theorem bdims_nil_left (B : List Nat) : bdims [] B = B := by
+  unfold bdims
+  simp [bdimsRev_nil_left]
+
+theorem matmulShape_rank1_left (k : Nat) (lb : List Nat) (b1 b2 : Nat) (tb : Bool)
+    (hinner : k = if tb then b2 else b1) :
+    matmulShape [k] false (lb ++ [b1, b2]) tb
+      = .ok (lb ++ [b1, b2], lb ++ [1, if tb then b1 else b2], 1, (if tb then b1 else b2), k) := by
+  unfold matmulShape
+  have t1 : ([k] : List Nat).take (([k] : List Nat).length - 2) = [] := by simp
+  have t2 : (lb ++ [b1, b2]).take ((lb ++ [b1, b2]).length - 2) = lb := by simp
+  rw [t1, t2, ewiseDims_spec, compat_nil_left, bdims_nil_left]
+  have n2 : ¬ (lb.length + 2 < 2) := by omega
+  have n3 : ¬ (1 ≥ lb.length + 2) := by omega
+  cases tb <;>
+    simp only [if_true, if_false, Bool.false_eq_true] at hinner <;>
+    simp [bind, Except.bind, pure, Except.pure, dimFromEnd, getR, n2, n3, hinner]
+
+/-- **A rank-1 left operand behaves as a one-row matrix** (next to an operand of rank ≥ 2, untransposed,
+    no additive term, inner dimensions agreeing): the two calls run the same computation, so the result
+    is the product of the `1 × k` matrix (C05_product). -/
+theorem matmul_rank1_left (av : List S) (k : Nat) (b : Tensor S) (tb : Bool) (lb : List Nat) (b1 b2 : Nat)
+    (hdb : b.dims = lb ++ [b1, b2]) (hinner : k = if tb then b2 else b1) :
+    matmul (⟨[k], av⟩ : Tensor S) false b tb none = matmul (⟨[1, k], av⟩ : Tensor S) false b tb none := by
+  unfold matmul
+  have h2 := matmulShape_rank2 [] lb 1 k b1 b2 false tb (compat_nil_left lb)
+    (by simpa using hinner)
+  simp only [List.nil_append, Bool.false_eq_true, if_false, bdims_nil_left] at h2
+  rw [hdb]
+  simp only [matmulShape_rank1_left k lb b1 b2 tb hinner, h2, bind, Except.bind, addTermCheck, pure, Except.pure]
+  obtain ⟨x1, x2, hx⟩ : ∃ x1 x2, (if ([] : List Nat).length ≥ lb.length then [1, k] else [b1, b2]) = [x1, x2] := by
+    split
+    · exact ⟨_, _, rfl⟩
+    · exact ⟨_, _, rfl⟩
+  rw [hx]
+  have hlen : (lb ++ [x1, x2]).length = (lb ++ [b1, b2]).length := by simp
+  rw [hlen, slicedOp_last2 _ _ lb x1 x2 b1 b2, slicedOp_row]
+
+end Corgi
+
+namespace Corgi
+variable {S : Type} [Add S] [Mul S] [Neg S] [Sub S] [ScalarOps S]
+
+theorem getElem?_getD (l : List S) (i : Nat) (h : i < l.length) : l[i]? = some (l.getD i zero) := by
+  simp [List.getD_eq_getElem?_getD, List.getElem?_eq_getElem h]
+
+/-- **Two untransposed rank-1 operands give their dot product** (a one-element array). -/
+theorem matmul_dot (av bv : List S) (k : Nat) (hk : 1 ≤ k) (ha : av.length = k) (hb : bv.length = k) :
+    matmul (⟨[k], av⟩ : Tensor S) false ⟨[k], bv⟩ false none
+      = .ok ⟨[1], [zero + sumList ((List.range k).map (fun t => av.getD t zero * bv.getD t zero))]⟩ := by
+  unfold matmul
+  have hshape : matmulShape [k] false [k] false = .ok ([k], [1], 1, 1, k) := by
+    simp [matmulShape, ewiseDims_spec, Compat, compatRev, bdims, bdimsRev, bind, Except.bind, pure, Except.pure,
+      dimFromEnd, getR]
+  simp only [hshape, bind, Except.bind, addTermCheck, pure, Except.pure, Option.isSome_none, cOperand]
+  have hsl : slicesAt [(⟨[k], av⟩ : Tensor S), ⟨[k], bv⟩, ⟨[1], [zero]⟩] 2 0 [] = .ok [av, bv, [zero]] := by
+    simp only [slicesAt, mapR, bind, Except.bind, pure, Except.pure]
+    have e1 : slice av (projOffset (([k] : List Nat).take (min (([k] : List Nat).length - 2) 0)) [] * prod (([k] : List Nat).reverse.take 2))
+        (prod (([k] : List Nat).reverse.take 2)) = .ok av := by
+      have : prod (([k] : List Nat).reverse.take 2) = k := by simp [prod]
+      rw [this, slice_ok _ _ _ (by simp [projOffset]; omega)]
+      simp [projOffset, ← ha]
+    have e2 : slice bv (projOffset (([k] : List Nat).take (min (([k] : List Nat).length - 2) 0)) [] * prod (([k] : List Nat).reverse.take 2))
+        (prod (([k] : List Nat).reverse.take 2)) = .ok bv := by
+      have : prod (([k] : List Nat).reverse.take 2) = k := by simp [prod]
+      rw [this, slice_ok _ _ _ (by simp [projOffset]; omega)]
+      simp [projOffset, ← hb]
+    have e3 : slice ([zero] : List S) (projOffset (([1] : List Nat).take (min (([1] : List Nat).length - 2) 0)) [] * prod (([1] : List Nat).reverse.take 2))
+        (prod (([1] : List Nat).reverse.take 2)) = .ok [zero] := by
+      simp [slice, projOffset, prod, pure, Except.pure]
+    rw [e1]; simp only []; rw [e2]; simp only []; rw [e3]
+  have hop : matmulOp 1 1 k false false false (prod (([1] : List Nat).drop (([k] : List Nat).length - 2))) [av, bv, [zero]]
+      = .ok [zero + sumList ((List.range k).map (fun t => av.getD t zero * bv.getD t zero))] := by
+    have hp : prod (([1] : List Nat).drop (([k] : List Nat).length - 2)) = 1 := by simp [prod]
+    simp only [matmulOp, matmulInit, hp, Bool.false_eq_true, if_false, pure, Except.pure, bind, Except.bind,
+      List.replicate_one]
+    rw [matmulSlice_ok 1 1 k av bv false false [zero] (fun _ => zero) (fun i => av.getD i zero) (fun i => bv.getD i zero)
+      (by simp) (fun i hi => getElem?_getD av i (by omega)) (fun i hi => getElem?_getD bv i (by omega))]
+    simp
+  rw [slicedOp_single _ _ [k] [1] 2 0 [av, bv, [zero]] _ (by simp) (by simp) hsl hop (by simp [prod])]
+  simp [flattenTrailing, Except.bind, pure, Except.pure, Tensor.mk?, prod]
+
+end Corgi
